@@ -340,3 +340,20 @@ Theorem C13_aux_cache_by_geometry : forall reqs cache,
   aux_cache_run true reqs cache = map (fun r => (snd r, fst r)) reqs.
 Proof. exact aux_cache_by_geometry. Qed.
 Print Assumptions C13_aux_cache_by_geometry.
+
+(* ------------------------------------------------------------------ fourth pass *)
+(* fix4-2: a broken compress attribute is recorded in the report of every field built from a
+   variable that spans the list variable's dimension (the data it would have uncompressed) *)
+Theorem C13_compress_missing_reported : forall ds l c v,
+  In l (a_vars ds) -> compress_of l = Some c ->
+  fst (check_compress (a_dims ds) (split_ws c)) = false -> mem (v_name l) (v_dims v) = true ->
+  exists w r, In (v_name l, w, r) (compress_msgs ds v).
+Proof. exact compress_missing_reported. Qed.
+Print Assumptions C13_compress_missing_reported.
+
+Theorem C13_compress_reported_example :
+  option_map f_report (field_of_name (read_skel (ds_gathered "nope lon")) "gq") =
+    Some [("landpoint", WCompress, RMissing)] /\
+  option_map f_report (field_of_name (read_skel (ds_gathered "lat lon")) "gq") = Some [].
+Proof. exact compress_reported_example. Qed.
+Print Assumptions C13_compress_reported_example.
